@@ -20,6 +20,8 @@ RULE = (
     "by content hash"
 )
 PARTIAL = [
+    "the `values.any()` guard of the repaired loop is a flag handed to the controller (computed by the harness from its "
+    "bitwise replay of the float deflation); a non-zero residual with an exactly zero contraction is the open finding",
     "_update_components (linear solves + scipy minimize_scalar on the GCV criterion) is an oracle of the controller: "
     "its outputs are recorded, not modelled",
     "the float convergence ratios norm(v-v_old)/norm(v) are recomputed by the harness with the code's expression and "
@@ -97,6 +99,13 @@ def parse_fcp_loop(path):
     out = {}
     # while any(norm(v - v_old) / norm(v) > tolerance for …)
     t = wh.test
+    out["zero_guard"] = False
+    if isinstance(t, ast.BoolOp) and isinstance(t.op, ast.And) and len(t.values) == 2:
+        g = t.values[0]  # `values.any() and any(…)`
+        if not (isinstance(g, ast.Call) and not g.args and isinstance(g.func, ast.Attribute) and g.func.attr == "any" and _name(g.func.value, "values")):
+            raise _Unrecognised("guard of the while condition")
+        out["zero_guard"] = True
+        t = t.values[1]
     if not (isinstance(t, ast.Call) and _name(t.func, "any") and len(t.args) == 1 and isinstance(t.args[0], ast.GeneratorExp)):
         raise _Unrecognised("while condition is not any(<generator>)")
     c = t.args[0].elt
@@ -149,9 +158,9 @@ def lean_source(x):
     return f"""/- GENERATED by harness/c17.py:translate() from FDApy/preprocessing/dim_reduction/fcp_tpa.py:FCPTPA.fit — do not edit. -/
 import FDAModel.FCPTPA
 namespace FDA.Generated
-/-- while … `{'>' if x['cond_gt'] else '>='} tolerance`; `if n_iter {'>' if x['max_strict'] else '>='} max_iteration`; `n_iter {'<' if x['adapt_strict'] else '<='} {x['adapt_factor']} * max_iteration`; `tolerance = {q} * tolerance`; reset `n_iter {'>=' if x['reset_ge'] else '>'} max_iteration`. -/
+/-- while {'values.any() and ' if x['zero_guard'] else ''}… `{'>' if x['cond_gt'] else '>='} tolerance`; `if n_iter {'>' if x['max_strict'] else '>='} max_iteration`; `n_iter {'<' if x['adapt_strict'] else '<='} {x['adapt_factor']} * max_iteration`; `tolerance = {q} * tolerance`; reset `n_iter {'>=' if x['reset_ge'] else '>'} max_iteration`. -/
 def fcpLoop : FDA.FCPTPA.LoopConsts :=
-  {{ maxStrict := {b(x['max_strict'])}, adaptStrict := {b(x['adapt_strict'])}, adaptFactor := {x['adapt_factor']}, tolFactor := ({q.numerator} : Rat) / {q.denominator}, resetGe := {b(x['reset_ge'])}, condGt := {b(x['cond_gt'])} }}
+  {{ maxStrict := {b(x['max_strict'])}, adaptStrict := {b(x['adapt_strict'])}, adaptFactor := {x['adapt_factor']}, tolFactor := ({q.numerator} : Rat) / {q.denominator}, resetGe := {b(x['reset_ge'])}, condGt := {b(x['cond_gt'])}, zeroGuard := {b(x['zero_guard'])} }}
 end FDA.Generated
 """
 
@@ -315,8 +324,8 @@ def search_cases(rng, tier):
 
 
 def witness_cases():
-    """Open finding C17-zero-residual-nan: the listed witness (constant data, rounding makes the first
-    residual exactly 0) and the rounding-independent all-zero array."""
+    """Witnesses of the open findings (known_findings.d/C17.json), plus — regression cases of the FIXED finding
+    C17-zero-residual-nan — constant 2x3x4 data with K = 2 and the all-zero array (must now pass every clause)."""
     import json
     import os
 
@@ -328,11 +337,12 @@ def witness_cases():
         for f in json.load(open(path)).get("open", []):
             if f.get("witness"):
                 out.append(dict(f["witness"]))
-    if out:
-        z = dict(out[0])
-        z.update(ck="zeros", X=[["0"] * (z["m1"] * z["m2"]) for _ in range(z["n"])], witness="all-zero array")
-        out.append(z)
-    return out
+    base = dict(kind="fit", n=2, m1=3, m2=4, ck="const", X=[["2"] * 12 for _ in range(2)], t1=["0", "1", "2"], t2=["0", "1", "2", "3"],
+                K=2, tol=1e-4, max=5, adapt=True, ar_v=[1e-2, 1e2], ar_w=[1e-2, 1e2], pen="diff", pen_seed=0, seed=0,
+                dtype="float64", layout="C", witness="fixed C17-zero-residual-nan (constant)")
+    z = dict(base)
+    z.update(ck="zeros_guarded", X=[["0"] * 12 for _ in range(2)], witness="fixed C17-zero-residual-nan (all-zero array)")
+    return out + [base, z]
 
 
 # --------------------------------------------------------------------------
@@ -648,12 +658,11 @@ def _mat(rows):
 def model_lines(case, impl):
     if "__crash__" in impl or "runaway" in impl:
         return []
-    # a tree with the proposed guard (`while values.any() and …`) skips the loop on an exactly zero residual: the
-    # convergence oracle handed to the controller is then false there (recorded as "n")
-    ratios = [["n"] if (zr and c == 0) else toks for toks, zr, c in zip(impl["ratios"], impl.get("zero_resid", [False] * len(impl["ratios"])), impl["counts"])]
-    ctl = "ctl {} {} {} {} {}".format(
-        case["max"], 1 if case["adapt"] else 0, rs(F(case["tol"])), len(ratios),
-        ";".join(",".join(_tok(r) for r in toks) for toks in ratios),
+    # repaired loop: `values.any() and any(…)` — the controller gets the guard flag of every component
+    nz = [0 if zr else 1 for zr in impl.get("zero_resid", [False] * len(impl["ratios"]))]
+    ctl = "ctl {} {} {} {} {} {}".format(
+        case["max"], 1 if case["adapt"] else 0, rs(F(case["tol"])), len(impl["ratios"]), ",".join(str(x) for x in nz),
+        ";".join(",".join(_tok(r) for r in toks) for toks in impl["ratios"]),
     )
     lines = [ctl]
     for u in impl.get("upd_calls", []):
@@ -873,9 +882,9 @@ def oracle(case, impl):
             return vs  # the scripted update step injected the nan itself
         causes = []
         zr = impl["zero_resid"]
-        if (any(zr) and zr.index(True) <= K) or impl["zero_contraction"]:
-            # 0/0 in the update step: the contraction of the residual with the current v, w is exactly 0
-            # (in particular when the residual handed to component k is exactly 0)
+        if impl["zero_contraction"] and not (any(zr) and zr.index(True) <= K):
+            # 0/0 in the update step: a NON-zero residual whose contraction with the current v, w is exactly 0
+            # (an exactly zero residual is handled by the `values.any()` guard since 5419aa3: a nan there is new)
             causes.append("zero_contraction")
         bad("finite", f"components {K}.. of {case['K']} are not finite (no unit-norm rank-one tensor); zero residual flags {zr}, zero contraction {impl['zero_contraction']}", causes=causes)
     S = np.array(impl["scores"])
